@@ -318,6 +318,20 @@ pub fn check_c09(tree: &CN, compact: bool, multiline: bool, stats: &mut Stats) {
         }
         Err(_) => return,
     };
+    // the other loading route (string back-end) must read the emitted text the same way
+    let via_str = catch(|| Yaml::load_from_parser(&mut saphyr_parser::Parser::new_from_str(&text)).map(|d| d.iter().map(cn_yaml).collect::<Vec<_>>()).map_err(|e| e.to_string()));
+    match via_str {
+        Ok(Ok(d2)) if d2 == docs => stats.cnt("reloads_through_string_backend_agreeing", 1),
+        Ok(Ok(_)) => {
+            viol(stats, format!("C09/reload-differs-through-string-backend/multiline={multiline}"), format!("emitted text loads differently through Parser::new_from_str\n--- emitted ---\n{text}"), case(&text));
+            return;
+        }
+        Ok(Err(e)) => {
+            viol(stats, format!("C09/reload-error-through-string-backend/multiline={multiline}"), format!("emitted text does not load through Parser::new_from_str: {e}\n--- emitted ---\n{text}"), case(&text));
+            return;
+        }
+        Err(_) => {}
+    }
     if docs.len() != 1 {
         viol(stats, format!("C09/document-count/multiline={multiline}"), format!("emitted text loads as {} documents\n--- emitted ---\n{text}", docs.len()), case(&text));
         return;
@@ -725,22 +739,29 @@ pub fn check_c13(text: &str, want: &CN, what: &str, stats: &mut Stats) {
         stats.cnt("skipped_parse_does_not_terminate", 1);
         return;
     }
-    let case = || J::obj(vec![("input", J::s(text)), ("expected", cn_json(want))]);
-    let r = catch(|| Yaml::load_from_str(text).map(|d| d.iter().map(cn_yaml).collect::<Vec<_>>()).map_err(|e| e.to_string()));
-    match r {
-        Err(p) => viol(stats, format!("C13/panic/{}", crate::util::panic_site(&p)), format!("panic: {p}"), case()),
-        Ok(Err(e)) => {
-            let cls: String = e.split(" at byte").next().unwrap_or("").chars().take(60).collect();
-            viol(stats, format!("C13/rejected/{what}/{cls}"), format!("JSON text rejected: {e}"), case());
-        }
-        Ok(Ok(d)) => {
-            if d.len() != 1 {
-                viol(stats, format!("C13/document-count/{what}"), format!("JSON text loads as {} documents", d.len()), case());
-            } else if d[0] != *want {
-                let cls = diff_class(want, &d[0]);
-                viol(stats, format!("C13/value-differs/{what}/{cls}"), format!("JSON value {} loads as {}", want.show(), d[0].show()), case());
-            } else {
-                stats.cnt("json_texts_matching", 1);
+    // both loading routes: load_from_str reads through the buffered character iterator, a caller
+    // holding a &str may equally use Parser::new_from_str + load_from_parser (the string back-end)
+    for route in ["", "/StrInput"] {
+        let case = || J::obj(vec![("input", J::s(text)), ("expected", cn_json(want)), ("route", J::s(if route.is_empty() { "load_from_str" } else { "load_from_parser(Parser::new_from_str)" }))]);
+        let r = catch(|| {
+            let docs = if route.is_empty() { Yaml::load_from_str(text) } else { Yaml::load_from_parser(&mut saphyr_parser::Parser::new_from_str(text)) };
+            docs.map(|d| d.iter().map(cn_yaml).collect::<Vec<_>>()).map_err(|e| e.to_string())
+        });
+        match r {
+            Err(p) => viol(stats, format!("C13/panic/{}{route}", crate::util::panic_site(&p)), format!("panic: {p}"), case()),
+            Ok(Err(e)) => {
+                let cls: String = e.split(" at byte").next().unwrap_or("").chars().take(60).collect();
+                viol(stats, format!("C13/rejected/{what}/{cls}{route}"), format!("JSON text rejected: {e}"), case());
+            }
+            Ok(Ok(d)) => {
+                if d.len() != 1 {
+                    viol(stats, format!("C13/document-count/{what}{route}"), format!("JSON text loads as {} documents", d.len()), case());
+                } else if d[0] != *want {
+                    let cls = diff_class(want, &d[0]);
+                    viol(stats, format!("C13/value-differs/{what}/{cls}{route}"), format!("JSON value {} loads as {}", want.show(), d[0].show()), case());
+                } else {
+                    stats.cnt(if route.is_empty() { "json_texts_matching" } else { "json_texts_matching_through_string_backend" }, 1);
+                }
             }
         }
     }
